@@ -425,8 +425,12 @@ def run(ctx):
     bin_asan = ctx.cc("replay_pump_asan", SRCS, libs=LIBS, san="asan")
     # tool sanity: the parts of the vloop API the replay does not reach
     r = ctx.run([bin_asan], input="selftest\n", timeout=60, env=ENV)
+    selftest_failed = None
     if r.returncode != 0 or "selftest ok" not in r.stdout:
-        raise vlib.ToolError("vloop selftest failed rc=%d: %s" % (r.returncode, (r.stderr or "")[-1500:]))
+        # the mock loop rests on the code under test (upump_common.c): a failing self-test may be the
+        # repository's fault.  The replay below decides; without a verdict from it this is a tool error.
+        selftest_failed = "vloop selftest failed rc=%d: %s" % (r.returncode, (r.stderr or "")[-1500:])
+        ctx.extra["vloop_selftest_failed"] = selftest_failed[:300]
     ctx.assumptions += [
         "one pump, up to 3 blockers, the blocker call-back frees its blocker (as upipe_helper_input does)",
         "upump_restart is exercised where it is documented: on timer pumps, and on other pumps only "
@@ -512,3 +516,5 @@ def run(ctx):
         for tag, b in builds:
             rh.append(random_histories(ctx, b, 6000, 240, tag, report=not ctx.violations))
     ctx.extra["random_histories"] = rh
+    if selftest_failed and not ctx.violations:
+        raise vlib.ToolError(selftest_failed)
